@@ -89,6 +89,29 @@ CHECKS = {
         note=TB + "The whole-class-table induction (any DAG) is not proved; general DAGs are checked by correspondence. "
              "kf_C04_accept_all (D6) is a known finding.",
         design="DESIGN.md section 6 C04"),
+    "C06": dict(
+        text="Theorems (any data model in which only callables are called, conditions without comprehensions and dict "
+             "displays): if Python evaluates the condition to v, the re-evaluator returns v, ends in the same tables and "
+             "records exactly the nodes Python evaluated with Python's values in Python's order "
+             "(C06_reevaluation_is_evaluation, by mutual induction over the 7 syntactic categories; C06_sound, C06_complete); "
+             "a line is a recorded value or a representable argument, every representable argument is listed "
+             "(C06_lines_come_from_the_record, C06_arguments_listed); the example of a failing all() is the first "
+             "falsifying assignment (C06_all_first). Tie: correspondence - the model's Python semantics against instrumented "
+             "CPython node by node, the re-evaluator model against Visitor.recomputed_values and the message lines (objects "
+             "handed to a_repr), spec_C06 on the implementation's observation.",
+        note=TB + "Partial: comprehensions and dict displays are outside the refinement theorem (correspondence only). "
+             "Recorded finding D21 (names inside f-strings are not listed; C06_fstring_inner_refuted).",
+        design="DESIGN.md section 6 C06"),
+    "C07": dict(
+        text="Theorems: for conditions without comprehensions and dict displays the re-evaluator returns whenever Python's "
+             "evaluation did (C07_no_replacement_partial) and records nothing Python did not evaluate - no operand skipped "
+             "by short-circuiting is evaluated (C07_no_extra_evaluation_partial); message = location, description, text, "
+             "lines (C07_message_shape); D12b exhibited (C07_speculative_refuted). Tie: correspondence with the guard shapes "
+             "first, exception class at the caller, condition text parsed back, evaluated nodes against CPython's; layouts "
+             "of the decorator by enumeration (7 layouts x 3 nestings x description).",
+        note=TB + "Partial: the layout clause is an enumeration of layout templates (source recovery is inspect/asttokens "
+             "behaviour, not modelled). Recorded finding D12b (speculative evaluation inside comprehensions).",
+        design="DESIGN.md section 6 C07"),
     "C08": dict(
         text="Theorems: the trace of a checked call is pre ++ captures ++ body ++ post; captures occur only after the "
              "effective precondition held and only with postconditions and snapshots, each exactly once in order when "
@@ -160,6 +183,15 @@ CHECKS = {
              "(C19_*). Tie: definition histories with misuse; the exception class of each definition is compared with "
              "the set of misuses computed from the declarations (spec_C19_defs).",
         note=TB, design="DESIGN.md section 6 C19"),
+    "C20": dict(
+        text="Theorems: value lines are sorted by key (C20_sorted); sorting is independent of input order for distinct keys, "
+             "so keyword order cannot show (C20_sort_order_independent, C20_keyword_order); _ARGS/_KWARGS hidden unless named "
+             "(C20_args_hidden); non-representable values left out of argument, name, attribute, f-string and target lines "
+             "(C20_left_out_*); every value rendered by the contract's own repr and bounded by its bound (C20_own_repr, "
+             "C20_bounded). Tie: correspondence (spec_C20 + lines against the model) and runtime part: hash seeds x keyword "
+             "permutations x repetition, byte-identical messages; huge values under default and user-supplied repr.",
+        note=TB + "That reprlib honours its limits is a standard-library fact, measured on every run.",
+        design="DESIGN.md section 6 C20"),
 }
 
 PENDING = "check under construction in this session (model and theorems not yet committed)"
